@@ -35,6 +35,9 @@ type IPath struct {
 	Events  []Event
 	Desc    string
 	Ret     *ssa.Return
+	// Blocks: the basic blocks traversed – the root's own path first, then, as a contiguous run each, the path taken through
+	// every opened helper (in call order)
+	Blocks []*ssa.BasicBlock
 }
 
 type inlineOpts struct {
@@ -125,7 +128,7 @@ func inlinedOver(p *core.Prog, f *ssa.Function, rps []core.RetPath, o inlineOpts
 		if rp.Ret != nil && rp.Ret.Block().Comment == "recover" {
 			continue
 		}
-		cur := []IPath{{Atoms: append([]core.Atom{}, rp.Atoms...), Desc: rp.Path.String(), Ret: rp.Ret}}
+		cur := []IPath{{Atoms: append([]core.Atom{}, rp.Atoms...), Desc: rp.Path.String(), Ret: rp.Ret, Blocks: append([]*ssa.BasicBlock{}, rp.Path.Blocks...)}}
 		var subs [][]valueSub
 		subs = append(subs, nil)
 		locked := 0
@@ -282,6 +285,7 @@ func inlinedOver(p *core.Prog, f *ssa.Function, rps []core.RetPath, o inlineOpts
 					for i, cp := range cur {
 						for _, ip := range inner {
 							np := IPath{Desc: cp.Desc + "→" + core.FuncName(h) + ":" + ip.Desc, Ret: cp.Ret}
+							np.Blocks = append(append([]*ssa.BasicBlock{}, cp.Blocks...), ip.Blocks...)
 							np.Atoms = append(np.Atoms, cp.Atoms...)
 							for _, a := range ip.Atoms {
 								np.Atoms = append(np.Atoms, core.Atom{Cond: applySubs(liftWithEnv(rp.Env, a.Cond, x), subs[i]), Sign: a.Sign, Block: b})
